@@ -9,6 +9,7 @@ import (
 	"strconv"
 	"strings"
 
+	"github.com/elastos/Elastos.ELA/blockchain"
 	"github.com/elastos/Elastos.ELA/common"
 	"github.com/elastos/Elastos.ELA/common/config"
 	"github.com/elastos/Elastos.ELA/core/types"
@@ -28,11 +29,13 @@ import (
 //	e | e2 | e3 ...            n blocks with a coinbase only
 //	fund                       100000 ELA to the CR assets address
 //	reg:<c> upd:<c> unreg:<c>  register / rename / unregister CR candidate c (c1..c4)
+//	ret:<c>                    candidate c spends the deposit output of his registration
 //	vote:<v>:<pat>             voter v replaces his CR candidate vote output (patterns below)
 //	unvote:<v>                 voter v spends his vote output into a plain one
 //	rej:<v>:<P>:<big|small>    voter v votes against proposal P during public review
 //	imp:<v>:<c>:<big|small>    voter v impeaches council member c
 //	prop:<P>:<c>               normal proposal P (3 budget stages) sponsored by council member c
+//	propbig:<P>:<c>            the same with a budget above 10 % of the committee's funds
 //	elip:<P>:<c>               ELIP proposal (imprest + final)
 //	sg:<P>:<c>                 secretary-general proposal (new SG key sg2)
 //	close:<P>:<T>:<c>          proposal P closing proposal T
@@ -116,6 +119,9 @@ func (w *World) propTx(kind, label, sponsor string, target string) (Tx, error) {
 	switch kind {
 	case "prop":
 		return ProposalNormal(label, payload.Normal, own, m, own.Addr, Budget3(10*ELA, 20*ELA, 30*ELA)), nil
+	case "propbig": // asks for more than a tenth of what the committee may spend in this term
+		a := (w.C.CRCCurrentStageAmount-w.C.CommitteeUsedAmount)/10 + ELA
+		return ProposalNormal(label, payload.Normal, own, m, own.Addr, Budget3(a/4, a/4, a/2)), nil
 	case "elip":
 		return ProposalNormal(label, payload.ELIP, own, m, own.Addr, []payload.Budget{
 			{Type: payload.Imprest, Stage: 0, Amount: 10 * ELA}, {Type: payload.FinalPayment, Stage: 1, Amount: 30 * ELA}}), nil
@@ -183,6 +189,27 @@ func (w *World) build(op string) ([]Tx, error) {
 		return []Tx{UpdateCR(K(arg(1)), nick)}, nil
 	case "unreg":
 		return []Tx{UnregisterCR(K(arg(1)))}, nil
+	case "ret":
+		// the candidate takes back the deposit of his (last) registration, paying a 0.01 ELA fee
+		k := K(arg(1))
+		var in *common2.Input
+		var val common.Fixed64
+		for _, b := range w.Blocks {
+			for _, tx := range b.Transactions {
+				if tx.TxType() != common2.RegisterCR {
+					continue
+				}
+				if info, ok := tx.Payload().(*payload.CRInfo); ok && info.CID.IsEqual(k.CID) {
+					in, val = In(tx.Hash(), 0), tx.Outputs()[0].Value
+				}
+			}
+		}
+		if in == nil || w.spent(in.ReferKey()) {
+			return nil, ErrNA
+		}
+		tx := newTx(common2.ReturnCRDepositCoin, 0, &payload.ReturnDepositCoin{}, []*common2.Input{in},
+			[]*common2.Output{plainOut(k.Addr, val-ELA/100)}, prog(k))
+		return []Tx{tx}, nil
 	case "vote":
 		pat, ok := votePatterns[arg(2)]
 		if !ok {
@@ -216,7 +243,7 @@ func (w *World) build(op string) ([]Tx, error) {
 			return nil, err
 		}
 		return []Tx{VoteTx(K(arg(1)), w.voteOut[arg(1)], outputpayload.CRCImpeachment, []CV{{K(arg(2)).CID.Bytes(), a}}, a, n)}, nil
-	case "prop", "elip", "sg":
+	case "prop", "elip", "sg", "propbig":
 		tx, err := w.propTx(f[0], arg(1), arg(2), "")
 		if err != nil {
 			return nil, err
@@ -447,7 +474,34 @@ func (w *World) Offer(op string) ([]*types.Block, error) {
 			}
 		}
 	}
-	return []*types.Block{w.MakeBlock(txs...)}, nil
+	blk := w.MakeBlock(txs...)
+	if w.Skip == nil || !w.Skip(op) {
+		if err := CheckBlockRules(blk); err != nil {
+			return nil, err
+		}
+	}
+	return []*types.Block{blk}, nil
+}
+
+// CheckBlockRules applies the block-scoped transaction rules of BlockChain.CheckBlockSanity that
+// do not need a chain: no duplicate transaction, no input spent twice inside the block, and the
+// repository's CheckDuplicateTx (duplicate producer / CR / side-chain transactions).
+func CheckBlockRules(b *types.Block) error {
+	ids := map[common.Uint256]bool{}
+	ins := map[string]bool{}
+	for _, tx := range b.Transactions {
+		if ids[tx.Hash()] {
+			return errors.New("block contains duplicate transaction")
+		}
+		ids[tx.Hash()] = true
+		for _, in := range tx.Inputs() {
+			if ins[in.ReferKey()] {
+				return errors.New("block contains duplicate UTXO")
+			}
+			ins[in.ReferKey()] = true
+		}
+	}
+	return blockchain.CheckDuplicateTx(b)
 }
 
 // Apply processes the blocks returned by Offer.
@@ -473,6 +527,14 @@ func (w *World) noteVotes(b *types.Block) {
 			}
 		}
 	}
+}
+
+// VoteOutKey is the refer key of voter v's current output.
+func (w *World) VoteOutKey(v string) string {
+	if in := w.voteOut[v]; in != nil {
+		return in.ReferKey()
+	}
+	return ""
 }
 
 // Kind strips the parameters from an operation name ("rev:c1:A:a" -> "rev", "trk:A:progress" ->
